@@ -345,3 +345,103 @@ def rule_trav(traits=None, name="R-TRAV"):
         return res
     rule.__name__ = "rule_trav"
     return rule
+
+
+def _fields_into(fx, key, trait, names, acc_param=None):
+    """first-level fields of `self` that flow - through moves, borrows, clones, aggregates and helpers - into a call of the trait
+    family / one of `names`, or (acc_param given) into a value inserted into the accumulator parameter"""
+    fn = Fn(fx.fns[key])
+    flow = Flow(fn, extra_pass=lambda t: t.get("callee_name") in STD_PASS and (t.get("callee") or "").startswith(("core::", "alloc::", "std::")), fx=fx)
+    out = set()
+
+    def fields_of(operand, d=0, seen=None):
+        seen = seen if seen is not None else set()
+        r = op_root(operand)
+        if r is None:
+            return set()
+        res_ = set()
+        for o in flow.origins(r, tuple(place_fields(operand["pl"]))):
+            if o in seen:
+                continue
+            seen.add(o)
+            if o[0] == "arg" and o[1] == 1 and o[2]:
+                res_.add(o[2][0])
+            elif o[0] == "agg" and d < 5:
+                for op in flow.agg_at(o)["ops"]:
+                    if op.get("k") in ("copy", "move"):
+                        res_ |= fields_of(op, d + 1, seen)
+            elif o[0] == "call" and d < 5:
+                tc = fn.term(o[1])
+                k3 = tc.get("resolved_key") or (tc.get("callee_key") if not tc.get("callee_trait") else None)
+                srcs = ret_param_sources(fx, k3) if k3 in fx.fns else None
+                for pi in (sorted(srcs) if srcs else range(1, len(tc["args"]) + 1)):
+                    if pi - 1 < len(tc["args"]) and tc["args"][pi - 1].get("k") in ("copy", "move"):
+                        res_ |= fields_of(tc["args"][pi - 1], d + 1, seen)
+        return res_
+    bodies = [(fn, flow)]
+    for bi, t in fn.calls():
+        c = t.get("callee") or ""
+        fam = t.get("callee_trait") == trait or (t.get("callee_name") in names and c.split("::")[0] in fx.crates)
+        ins = False
+        if acc_param is not None and t.get("callee_name") in ("insert", "extend", "push") and c.startswith(("alloc::", "std::", "core::")) and t["args"]:
+            r0 = op_root(t["args"][0])
+            ins = r0 is not None and any(o[0] == "arg" and o[1] == acc_param for o in flow.origins(r0, ()))
+        if fam:
+            for a in t["args"][:1]:
+                out |= fields_of(a)
+        elif ins:
+            for a in t["args"][1:]:
+                out |= fields_of(a)
+    return out
+
+
+def rule_siblings(ctx):
+    """R-SIBLING: free-variable collection and renaming of one node agree on which of its fields are variables"""
+    fx = ctx.fx
+    res = RuleResult("R-SIBLING", "cross-check of sibling traversals of the focused Core statements and of the AxCut statements: the fields of a node that "
+                     "its renaming (`SubstVar::subst_sim` / AxCut `Subst::subst_sim`) rewrites are occurrences of variables and subterms, so each "
+                     "of them must also be counted by the node's free-variable collection (`typed_free_vars` / `free_vars`: handed to the "
+                     "recursive call or inserted into the set), and vice versa - a field one of them forgets is a variable that lifting or "
+                     "linearization passes on wrongly")
+    pairs = [("scc_core_lang::traits::substitution::SubstVar", "subst_sim", "scc_core_lang::traits::typed_free_vars::TypedFreeVars", "typed_free_vars", 2),
+             ("axcut::traits::substitution::Subst", "subst_sim", "axcut::traits::free_vars::FreeVars", "free_vars", 2),
+             ("axcut::traits::substitution::Subst", "subst_sim", "axcut::traits::typed_free_vars::TypedFreeVars", "typed_free_vars", 2)]
+    n = 0
+    _, rows = audit.load("traversal")
+    for tr_s, m_s, tr_f, m_f, accp in pairs:
+        # keyed by the impl's self type as written (IfC and the focused IfC<Identifier, FsStatement> are impls for one ADT)
+        impl_s = {imp.get("self"): imp for imp in fx.impls if imp.get("trait") == tr_s and imp.get("self_adt") in fx.adts}
+        impl_f = {imp.get("self"): imp for imp in fx.impls if imp.get("trait") == tr_f and imp.get("self_adt") in fx.adts}
+        for selfty in sorted(set(impl_s) & set(impl_f)):
+            adt = impl_s[selfty]["self_adt"]
+            if adt.startswith(WRAPPERS) or fx.adts[adt]["kind"] != "struct":
+                continue
+            impl_s[adt], impl_f[adt] = impl_s[selfty], impl_f[selfty]
+            ks = [m["key"] for m in impl_s[adt]["methods"] if m["name"] == m_s and m["key"] in fx.fns]
+            kf = [m["key"] for m in impl_f[adt]["methods"] if m["name"] == m_f and m["key"] in fx.fns]
+            if not ks or not kf:
+                continue
+            fs = _fields_into(fx, ks[0], tr_s, {m_s})
+            ff = _fields_into(fx, kf[0], tr_f, {m_f}, acc_param=accp)
+            # annotations (the cached free-variable sets, the closure environment) are renamed along with the node but are results of
+            # the free-variable pass, not inputs to it: optional sets of ids and the optional closure context
+            ann = set()
+            if adt.startswith("axcut::"):
+                ann |= {fd["name"] for fd in fx.adts[adt]["variants"][0]["fields"] if fd["ty"].startswith("std::option::Option<std::collections::HashSet") or
+                        (fd["name"] == "context" and fd["ty"].startswith("std::option::Option<"))}
+            fs -= ann
+            f0 = fx.fns[kf[0]]
+            n += 1
+            ikey = "%s|%s" % (tr_f.split("::")[-1], selfty)
+            # binders are renamed consistently or removed from the set: fields that only one side touches are compared after removing
+            # the ones the free-variable side *removes* (a binder) - those are audited by name in audit/traversal.toml (skip_fields)
+            only_s = sorted(fs - ff)
+            if only_s:
+                res.inst(ikey, f0["sp"]["file"], f0["sp"]["line"], "violation", "renamed but not counted: %s" % only_s)
+                res.violate(ikey, "%s renames field(s) %s of %s, but %s never counts them (neither hands them to the recursive call nor inserts them into the "
+                            "set): a free variable is missing from the set, so a lifted or linearized statement does not receive it" %
+                            (m_s, ", ".join(only_s), adt.split("::")[-1], m_f), f0["sp"]["file"], f0["sp"]["line"])
+            else:
+                res.inst(ikey, f0["sp"]["file"], f0["sp"]["line"], "ok", "renamed fields %s all counted" % sorted(fs))
+    res.require_floor(10)
+    return res
